@@ -1135,15 +1135,15 @@ class ContentElement(TTMLElement):
       for child in iter(model_element):
         if isinstance(child, model.Text):
           if last_child_element is None:
-            xml_element.text = child.get_text()
+            xml_element.text = (xml_element.text or "") + child.get_text()
           else:
-            last_child_element.tail = child.get_text()
+            last_child_element.tail = (last_child_element.tail or "") + child.get_text()
+          continue
 
         child_element = ContentElement.from_model(ctx, child)
         if child_element is not None:
           xml_element.append(child_element)
-        
-        last_child_element = child_element
+          last_child_element = child_element
 
     return xml_element
 
